@@ -382,6 +382,32 @@ def dormant_case(args):
     return ("dormant " + way, "c", name, "one", err)
 
 
+def skipped_class_case(args):
+    """A class that one language does not wrap contributes nothing to that language: the splicer blocks of that language (names
+    and contents) are those of the same library without the class, wherever the class stands among the declarations."""
+    workdir, lang, position, where = args
+    opt = {"c": {"wrap_c": False, "wrap_fortran": False}, "f": {"wrap_fortran": False}, "py": {"wrap_python": False}, "lua": {"wrap_lua": False}}[lang]
+    y0 = yaml.safe_load(libs.SMALL_CXX)
+    y0["declarations"].insert(7, {"decl": "class Circle", "declarations": [{"decl": "Circle()"}, {"decl": "double area()"}]})
+    y1 = json.loads(json.dumps(y0))
+    skipped = {"decl": "class Internal", "declarations": [{"decl": "Internal()"}, {"decl": "int secret(int a)"}], "options": opt}
+    target = y1["declarations"] if where == "library" else [d for d in y1["declarations"] if d["decl"] == "namespace inner"][0]["declarations"]
+    target.insert({"first": 0, "middle": len(target) // 2, "last": len(target)}[position], skipped)
+    out0, r0 = gen(os.path.join(workdir, "a"), y0, {}, [])
+    out1, r1 = gen(os.path.join(workdir, "b"), y1, {}, [])
+    err = None
+    if r0.status != "ok" or r1.status != "ok":
+        err = "shroud failed: %s %s / %s %s" % (r0.exc, r0.msg, r1.exc, r1.msg)
+    else:
+        b0 = {(k[0], k[3]): v for k, v in tree_blocks(out0).items() if k[0] == lang}
+        b1 = {(k[0], k[3]): v for k, v in tree_blocks(out1).items() if k[0] == lang and ".Internal." not in "." + k[3] + "."}
+        if set(b0) != set(b1):
+            err = "block names of the %s wrapper change when a class it does not wrap is declared (%s of the %s): only without it %s, only with it %s" % (
+                lang, position, where, sorted(k[1] for k in set(b0) - set(b1))[:4], sorted(k[1] for k in set(b1) - set(b0))[:4])
+    shutil.rmtree(workdir, ignore_errors=True)
+    return ("skipped class " + position + " " + where, lang, "class.Internal", "one", err)
+
+
 def two_ways_case(args):
     """file + splicer_code naming different blocks of one language: both must survive."""
     workdir, ydict, lang, name1, name2, base_blocks = args
@@ -694,6 +720,13 @@ def run(ctx):
                 i += 1
                 qjobs.append((os.path.join(basedir, "w%d" % i), ydorm, way, sc + "." + blk, base_dorm))
     res += isolate.pmap(dormant_case, qjobs, W)
+    kjobs = []
+    for lang in ("c", "f", "py", "lua"):
+        for position in ("first", "middle", "last"):
+            for where in ("library", "namespace"):
+                i += 1
+                kjobs.append((os.path.join(basedir, "w%d" % i), lang, position, where))
+    res += isolate.pmap(skipped_class_case, kjobs, W)
     sjobs = []
     for lang in ("c", "f", "py", "lua"):
         ln = [n for l, n in names if l == lang]
